@@ -46,6 +46,7 @@ type Ob struct {
 	// fail the check; the obligation then says nothing about the construct.
 	Unrecognised []string `json:"unrecognised,omitempty"`
 	known        bool
+	ruleFns      []ruleFrame
 }
 
 // Unrec records that the rule did not find the construct it knows (a count
@@ -133,6 +134,9 @@ type Ctx struct {
 	TrustedBase []string
 	Census      map[string]int
 	floorsDone  bool
+	staleNoted  bool
+	renOnce     sync.Once
+	renamed     map[string][]string
 }
 
 // ProcessStart is the time the checker started (includes loading).
@@ -154,6 +158,7 @@ func NewCtx(prop, tier string, prog *Program) *Ctx {
 // not pass.
 func (c *Ctx) Check(rule, key, desc string, f func(o *Ob)) *Ob {
 	o := &Ob{Rule: rule, Key: key, Desc: desc, Status: Discharged}
+	o.ruleFns = ruleFrames(3)
 	c.Obs = append(c.Obs, o)
 	func() {
 		defer func() {
@@ -171,6 +176,7 @@ func (c *Ctx) Check(rule, key, desc string, f func(o *Ob)) *Ob {
 		}()
 		f(o)
 	}()
+	c.vocabGuard(o)
 	if o.Status == Discharged && o.Evals == 0 && len(o.Unrecognised) == 0 {
 		c.giveUp(o, "rule inspected no construct (vacuous)")
 	}
@@ -182,6 +188,24 @@ func (c *Ctx) Check(rule, key, desc string, f func(o *Ob)) *Ob {
 		c.giveUp(o, fmt.Sprintf("inspected %d constructs where %d were inspected on the reviewed tree: part of what this rule decides may have moved out of its sight", o.Evals, n0))
 	}
 	return o
+}
+
+// vocabGuard: a failure of a rule whose vocabulary was renamed since the
+// reviewed tree is not a decision (see vocab.go).
+func (c *Ctx) vocabGuard(o *Ob) {
+	if o.Status != Violated || Strict() {
+		return
+	}
+	ren := c.vocabRenamed(o.ruleFns)
+	if len(ren) == 0 {
+		return
+	}
+	if len(ren) > 6 {
+		ren = append(ren[:6:6], fmt.Sprintf("and %d more", len(ren)-6))
+	}
+	o.Unrecognised = append(o.Unrecognised, fmt.Sprintf("names this rule looks for were renamed since the reviewed tree (%s), so what it finds in their place is not a decision; it reported: %s", strings.Join(ren, ", "), o.Detail))
+	o.Status = Discharged
+	o.Detail = ""
 }
 
 var (
